@@ -391,11 +391,9 @@ impl Prop for P {
             vec(finite_box(), 8..=8),
             vec(vec(prop_oneof![Just(0u16), Just(1000u16), 0u16..=1000], 8..=8), 1..=9),
         )
-            .prop_map(|(dag, outs, boxes, samples)| Case::Eval {
-                dag,
-                outs,
-                boxes,
-                samples,
+            .prop_map(|(dag, outs, boxes, samples)| {
+                let boxes = gens::coincide_boxes(&dag, boxes, f32::MAX);
+                Case::Eval { dag, outs, boxes, samples }
             });
         let mut pm = p;
         pm.min_vars = 2;
